@@ -52,6 +52,19 @@ CLAIMED["C02"] = dict(
            "expansion (a statement about event sequences)."),
     note=_NOTE, technique="static analysis: MIR guard-dominance and must-pass-through rules over the alias/anchor state machine")
 
+CLAIMED["C09"] = dict(
+    level=("Static decision over every CFG path plus compile-fail witnesses: all entry points (6 default / 13 with features) thread "
+           "the four option components and a Cfg derived from their own Options, run user code inside the document scope and "
+           "finish; the string constructor is the only place a string parser is built and strips one leading U+FEFF for parser "
+           "and borrow source alike, and snippet text agrees with parser text; every from_slice* validates UTF-8 with the "
+           "dedicated error and delegates; the reader's decoder sniffs BOMs with no override; visit_borrowed_str only receives "
+           "the payload of the parser's Cow::Borrowed; every exported io::Read entry bounds its output by DeserializeOwned or a "
+           "higher-ranked closure, and three borrowed-from-reader programs fail to compile while their owned twins compile. "
+           "Not decided: equality of values / error positions across chunkings."),
+    note=_NOTE + " The witnesses additionally trust rustdoc's compile_fail doctest runner (nightly).",
+    technique="static analysis: MIR protocol / sibling-agreement / provenance rules + rustdoc compile_fail witnesses with compiling twins")
+WITNESS_PROPS.append("C09")
+
 NOT_APPLICABLE = {("C%02d" % i): _NB for i in range(1, 21) if ("C%02d" % i) not in CLAIMED}
 
 CLAIMED["C10"] = dict(
@@ -87,5 +100,18 @@ CLAIMED["C02"] = dict(
            "the replay stack is empty; anchors are cleared at every document boundary. Not decided: equality with the alias-free "
            "expansion (a statement about event sequences)."),
     note=_NOTE, technique="static analysis: MIR guard-dominance and must-pass-through rules over the alias/anchor state machine")
+
+CLAIMED["C09"] = dict(
+    level=("Static decision over every CFG path plus compile-fail witnesses: all entry points (6 default / 13 with features) thread "
+           "the four option components and a Cfg derived from their own Options, run user code inside the document scope and "
+           "finish; the string constructor is the only place a string parser is built and strips one leading U+FEFF for parser "
+           "and borrow source alike, and snippet text agrees with parser text; every from_slice* validates UTF-8 with the "
+           "dedicated error and delegates; the reader's decoder sniffs BOMs with no override; visit_borrowed_str only receives "
+           "the payload of the parser's Cow::Borrowed; every exported io::Read entry bounds its output by DeserializeOwned or a "
+           "higher-ranked closure, and three borrowed-from-reader programs fail to compile while their owned twins compile. "
+           "Not decided: equality of values / error positions across chunkings."),
+    note=_NOTE + " The witnesses additionally trust rustdoc's compile_fail doctest runner (nightly).",
+    technique="static analysis: MIR protocol / sibling-agreement / provenance rules + rustdoc compile_fail witnesses with compiling twins")
+WITNESS_PROPS.append("C09")
 
 NOT_APPLICABLE = {("C%02d" % i): _NB for i in range(1, 21) if ("C%02d" % i) not in CLAIMED}
